@@ -70,6 +70,23 @@ def fix(x):
     return int(fr)
 
 
+def undump_str(d):
+    """text of a dumped string `(str "…")` (escapes: \\" \\\\ \\u{hex}); None if the dump is not a string"""
+    m = re.match(r'\(str "(.*)"\)$', d, re.S)
+    if not m:
+        return None
+    return re.sub(r'\\u\{([0-9a-f]+)\}|\\(.)', lambda k: chr(int(k.group(1), 16)) if k.group(1) else k.group(2), m.group(1), flags=re.S)
+
+
+def strlit(cps):
+    """xray expression for the string with the given code points (no reliance on literal escapes)"""
+    if not cps:
+        return '""'
+    if all(48 <= c < 127 and c not in (34, 92, 123, 125) for c in cps):
+        return '"' + "".join(map(chr, cps)) + '"'
+    return "[" + ", ".join(map(str, cps)) + "].map(chr).join()"
+
+
 ROW_PRELUDE = "fn verif_row(jd: int)->Sequence<int>{ let d = date(jd); [d::year, d::month, d::day, d.julian_day(), d.weekday()] }\n"
 
 
@@ -294,7 +311,257 @@ def run(chk):
         if r != str(k * (SCALE // 1024)):
             chk.violation("tie:unix", f"generated Lean {line!r} = {r}, expected {k * (SCALE // 1024)}", {"model": line}, no_input=True)
 
+    # ---------------------------------------------------------------------------------------- chr / code_point
+    scal = [0, 1, 9, 10, 31, 32, 34, 65, 92, 127, 128, 233, 0x7FF, 0x800, 0xD7FF, 0xE000, 0xFFFD, 0xFFFF, 0x10000, 0x1F600, 0x10FFFF]
+    bad = [-1, -2 ** 31, 0xD800, 0xDBFF, 0xDC00, 0xDFFF, 0x110000, 2 ** 31, 2 ** 32 - 1, 2 ** 32, 2 ** 40, 2 ** 64, -2 ** 64]
+    cvals = scal + bad + [rng.randrange(0, 0x110000) for _ in range(150 if quick else 5000)] + [rng.randrange(0xD800, 0xE000) for _ in range(10)]
+    exprs = [f"chr({lit(v)})" for v in cvals] + [f"code_point(chr({lit(v)}))" for v in cvals]
+    dumps = eval_exprs(exprs)
+    mres = run_model([f"conv chr {v}" for v in cvals])
+    for i, v in enumerate(cvals):
+        chk.evaluations += 1
+        chk.count("chr")
+        valid = 0 <= v < 0x110000 and not (0xD800 <= v < 0xE000)
+        d1, d2 = dumps[i], dumps[len(cvals) + i]
+        replay = {"src": f"let r = {exprs[i]}; let q = {exprs[len(cvals) + i]};", "get": ["r", "q"]}
+        if valid:
+            got = undump_str(d1)
+            if got != chr(v):
+                chk.violation("lang:chr:wrong", f"chr({v}) = {d1}", replay)
+            elif ints_of(d2) != [v]:
+                chk.violation("lang:code_point:roundtrip", f"code_point(chr({v})) = {d2}", replay)
+            elif mres[i] != f"ok {v}":
+                chk.violation("tie:chr", f"model chr({v}) = {mres[i]}", {"model": f"conv chr {v}"}, no_input=True)
+        else:
+            if not is_err(d1):
+                chk.violation("lang:chr:accepts-non-scalar", f"chr({v}) = {d1}, expected an error value", replay)
+            elif mres[i] != "err":
+                chk.violation("tie:chr", f"model chr({v}) = {mres[i]}, implementation gives an error value", {"model": f"conv chr {v}"}, no_input=True)
+    # chr(code_point(c)) on one-character strings, code_point on other lengths
+    sexprs, swant = [], []
+    for v in scal + [rng.randrange(0xE000, 0x110000) for _ in range(40)]:
+        sexprs.append(f"chr(code_point({strlit([v])})) == {strlit([v])}"); swant.append("(bool true)")
+    for cps in ([], [65, 66], [0x1F600, 0x1F600]):
+        sexprs.append(f"code_point({strlit(cps)})"); swant.append("ERR")
+    for e, w, d in zip(sexprs, swant, eval_exprs(sexprs)):
+        chk.evaluations += 1
+        chk.count("code_point")
+        if (w == "ERR" and not is_err(d)) or (w != "ERR" and d != w):
+            chk.violation("lang:code_point:wrong", f"{e} = {d}, expected {w}", {"src": f"let r = {e};", "get": ["r"]})
+    mcp = run_model(["conv code_point -", "conv code_point 65,66", "conv code_point 128512"])
+    if mcp != ["err", "err", "ok 128512"]:
+        chk.violation("tie:code_point", f"model code_point answers {mcp}", {"model": "conv code_point -"}, no_input=True)
+
+    # ---------------------------------------------------------------------------------------- int <-> text in a base
+    DIG = "0123456789abcdefghijklmnopqrstuvwxyz"
+
+    def to_base(x, b):
+        if x == 0:
+            return "0"
+        ds, t = [], abs(x)
+        while t:
+            ds.append(DIG[t % b]); t //= b
+        return ("-" if x < 0 else "") + "".join(reversed(ds))
+    rexprs, rwant = [], []
+    for _ in range(150 if quick else 5000):
+        x = big(rng)
+        b = rng.randrange(2, 37)
+        txt = to_base(x, b)
+        if rng.random() < 0.3:
+            txt = txt.upper()
+        rexprs.append(f'to_int("{txt}", {b})'); rwant.append(f"(int {'S' if -2**63 <= x < 2**63 else 'L'} {x})")
+        rexprs.append(f"to_int(to_str({lit(x)}))"); rwant.append(rwant[-1])
+        m = rng.choice(["x", "X", "b", "o"])
+        rexprs.append(f'to_int(format(abs({lit(x)}), "{m}"), {dict(x=16, X=16, b=2, o=8)[m]})'); rwant.append(f"(int {'S' if abs(x) < 2**63 else 'L'} {abs(x)})")
+    for e, w, d in zip(rexprs, rwant, eval_exprs(rexprs)):
+        chk.evaluations += 1
+        chk.count("radix")
+        if d != w:
+            chk.violation("lang:radix:roundtrip", f"{e} = {d}, expected {w}", {"src": f"let r = {e};", "get": ["r"]})
+
+    # ---------------------------------------------------------------------------------------- JSON
+    ALPH = [34, 92, 47, 8, 9, 10, 12, 13, 0, 1, 31, 127, 32, 97, 98, 122, 65, 48, 0xE9, 0x2028, 0xFFFF, 0xE000, 0xD7FF, 0x1F600, 0x10FFFF]
+    SIMPLE_NUMS = [0.0, 1.0, -1.0, 1.5, -2.25, 100.0, 0.5, 1024.0, -0.0048828125, 255.0, 3.0, 1e15]
+    RANGE_NUMS = [1e300, -1e300, 5e-324, 1.7976931348623157e308, 0.1, 1e16, 1.2345678901234568e20, 2.2250738585072014e-308, 1e-7, 123456.789, -0.3]
+
+    def rstr(maxlen=6):
+        return [rng.choice(ALPH) if rng.random() < 0.8 else rng.randrange(32, 0xD800) for _ in range(rng.randrange(0, maxlen + 1))]
+
+    def gen_doc(depth, simple):
+        k = rng.random()
+        if depth == 0 or k < 0.45:
+            c = rng.random()
+            if c < 0.35:
+                return ("num", rng.choice(SIMPLE_NUMS) if simple or rng.random() < 0.5 else rng.choice(RANGE_NUMS + [rng.uniform(-1e6, 1e6), rng.randrange(-2 ** 53, 2 ** 53) * 1.0]))
+            if c < 0.7:
+                return ("str", rstr())
+            if c < 0.85:
+                return ("bool", rng.random() < 0.5)
+            return ("null",)
+        if k < 0.75:
+            return ("arr", [gen_doc(depth - 1, simple) for _ in range(rng.randrange(0, 4))])
+        n = rng.randrange(0, 2) if simple else rng.randrange(0, 4)
+        keys = []
+        for _ in range(n):
+            kk = rstr(3)
+            if kk not in keys:
+                keys.append(kk)
+        return ("obj", [(kk, gen_doc(depth - 1, simple)) for kk in keys])
+
+    def fl_lit(x):
+        r = repr(abs(x)).replace("e+", "e")
+        if "e" not in r and "." not in r:
+            r += ".0"
+        return ("-" if (x < 0 or (x == 0 and math.copysign(1, x) < 0)) else "") + r
+
+    def xexpr(doc):
+        t = doc[0]
+        if t == "num":
+            return f"json({fl_lit(doc[1])})"
+        if t == "str":
+            return f"json({strlit(doc[1])})"
+        if t == "bool":
+            return "json(true)" if doc[1] else "json(false)"
+        if t == "null":
+            return "json(())"
+        if t == "arr":
+            return "json([" + ", ".join(xexpr(x) for x in doc[1]) + "])"
+        return "json(mapping<str>()" + "".join(f".set({strlit(k)}, {xexpr(v)})" for k, v in doc[1]) + ")"
+
+    def pyval(doc):
+        t = doc[0]
+        if t == "num":
+            return float(doc[1])
+        if t == "str":
+            return "".join(map(chr, doc[1]))
+        if t == "bool":
+            return doc[1]
+        if t == "null":
+            return None
+        if t == "arr":
+            return [pyval(x) for x in doc[1]]
+        return {"".join(map(chr, k)): pyval(v) for k, v in doc[1]}
+
+    def same(a, b):
+        if isinstance(a, bool) or isinstance(b, bool) or a is None or b is None:
+            return a is b if (a is None or b is None) else (isinstance(a, bool) and isinstance(b, bool) and a == b)
+        if isinstance(a, (int, float)) and isinstance(b, (int, float)):
+            return float(a) == float(b)
+        if isinstance(a, str) and isinstance(b, str):
+            return a == b
+        if isinstance(a, list) and isinstance(b, list):
+            return len(a) == len(b) and all(same(x, y) for x, y in zip(a, b))
+        if isinstance(a, dict) and isinstance(b, dict):
+            return a.keys() == b.keys() and all(same(a[k], b[k]) for k in a)
+        return False
+
+    def mtoks(doc):
+        t = doc[0]
+        cps = lambda l: ",".join(map(str, l)) if l else "-"
+        if t == "num":
+            return ["n:" + cps([ord(c) for c in (repr(doc[1]) if doc[1] != 0 else "0.0")])]
+        if t == "str":
+            return ["s:" + cps(doc[1])]
+        if t == "bool":
+            return ["b:1" if doc[1] else "b:0"]
+        if t == "null":
+            return ["z"]
+        if t == "arr":
+            return [f"a:{len(doc[1])}"] + [x for d in doc[1] for x in mtoks(d)]
+        return [f"o:{len(doc[1])}"] + [x for k, v in doc[1] for x in [cps(k)] + mtoks(v)]
+
+    docs = [(gen_doc(rng.randrange(0, 6), simple), simple) for simple in (True, False) for _ in range(120 if quick else 4000)]
+    jexprs = [f"({xexpr(d)}).serialize()" for d, _ in docs] + [f"json_deserialize(({xexpr(d)}).serialize()) == ({xexpr(d)})" for d, _ in docs]
+    dumps = eval_exprs(jexprs, chunk=20)
+    n = len(docs)
+    texts = [undump_str(dumps[i]) for i in range(n)]
+    parsed = run_harness([{"op": "conv", "f": "json_parse", "text": t if t is not None else ""} for t in texts])
+    sim = [i for i, (d, simple) in enumerate(docs) if simple]
+    mser = dict(zip(sim, run_model(["conv ser " + " ".join(mtoks(docs[i][0])) for i in sim])))
+    for i, (doc, simple) in enumerate(docs):
+        chk.evaluations += 1
+        chk.count("json:" + ("simple" if simple else "wide"))
+        replay = {"src": f"let r = {jexprs[i]}; let q = {jexprs[n + i]};", "get": ["r", "q"], "document": pyjson.dumps(pyval(doc))}
+        if texts[i] is None:
+            chk.violation("lang:json:serialize-failed", f"serialize gave {dumps[i][:200]}", replay)
+            continue
+        pr = parsed[i]
+        if "ok" not in pr:
+            chk.violation("lang:json:unparseable", f"serde_json rejects the serialised text {texts[i]!r}: {pr}", replay)
+            continue
+        if not same(pr["ok"], pyval(doc)):
+            chk.violation("lang:json:different-document", f"serialised text {texts[i]!r} reads as {pr['ok']!r}, the document is {pyval(doc)!r}", replay)
+            continue
+        if dumps[n + i] != "(bool true)":
+            chk.violation("lang:json:deserialize-roundtrip", f"json_deserialize(serialize(v)) == v is {dumps[n+i]} for v = {pyval(doc)!r}", replay)
+            continue
+        if i in mser:
+            mt = "".join(chr(int(c)) for c in mser[i].split(",")) if mser[i] not in ("-", "bad-op") else mser[i]
+            if mt != texts[i]:
+                chk.violation("tie:json:ser", f"model ser = {mt!r}, implementation = {texts[i]!r}", {"model": "conv ser " + " ".join(mtoks(doc)), "src": replay["src"]}, no_input=True)
+    chk.sample({"lang": jexprs[0], "document": pyjson.dumps(pyval(docs[0][0]))})
+
+    # strings: escape (model / implementation / Python json.dumps) and unescape (model / json_deserialize / json.loads)
+    strs = [[c] for c in ALPH] + [rstr(12) for _ in range(150 if quick else 5000)] + [list(range(0, 40))]
+    sd = eval_exprs([f"json({strlit(cps)}).serialize()" for cps in strs])
+    ms = run_model([f"conv escape {','.join(map(str, cps)) if cps else '-'}" for cps in strs])
+    for cps, d, m in zip(strs, sd, ms):
+        chk.evaluations += 1
+        chk.count("json:escape")
+        want = pyjson.dumps("".join(map(chr, cps)), ensure_ascii=False)
+        got = undump_str(d)
+        if got != want:
+            chk.violation("lang:json:escape", f"serialize of the string {cps} is {d}, expected {want!r}", {"src": f"let r = json({strlit(cps)}).serialize();", "get": ["r"]})
+        elif m != ",".join(str(ord(c)) for c in want):
+            chk.violation("tie:json:escape", f"model escapeStr {cps} = {m}, implementation {want!r}", {"model": f"conv escape {cps}"}, no_input=True)
+    utexts = []
+    for _ in range(150 if quick else 5000):
+        parts = ['"']
+        for _ in range(rng.randrange(0, 8)):
+            r = rng.random()
+            if r < 0.3:
+                parts.append(rng.choice(['\\"', "\\\\", "\\/", "\\b", "\\f", "\\n", "\\r", "\\t"]))
+            elif r < 0.5:
+                u = rng.choice([0, 0x1f, 0x41, 0xe9, 0x2028, 0xffff, 0xd7ff, 0xe000, rng.randrange(0, 0xd800)])
+                parts.append("\\u%04x" % u if rng.random() < 0.5 else "\\u%04X" % u)
+            elif r < 0.6:
+                v = rng.randrange(0x10000, 0x110000) - 0x10000
+                parts.append("\\u%04x\\u%04x" % (0xd800 + (v >> 10), 0xdc00 + (v & 0x3ff)))
+            elif r < 0.9:
+                parts.append(chr(rng.choice([32, 97, 0xe9, 0x1f600, 47, 127])))
+            else:
+                parts.append(rng.choice(["\\x", "\\u12", chr(10), chr(31), "\\ud800", "\\udc00\\ud800", '"', "\\"]))
+        parts.append('"')
+        utexts.append("".join(parts))
+    ud = eval_exprs([f"json_deserialize({strlit([ord(c) for c in t])})" for t in utexts])
+    um = run_model([f"conv unescape {','.join(str(ord(c)) for c in t)}" for t in utexts])
+    for t, d, m in zip(utexts, ud, um):
+        chk.evaluations += 1
+        chk.count("json:unescape")
+        try:
+            want = pyjson.loads(t)
+            if not isinstance(want, str) or any(0xD800 <= ord(c) < 0xE000 for c in want):
+                want = None
+        except Exception:
+            want = None
+        mm = re.match(r'\(union \d+ (\(str .*\))\)$', d, re.S)
+        got = undump_str(mm.group(1)) if mm else None
+        replay = {"src": f"let r = json_deserialize({strlit([ord(c) for c in t])});", "get": ["r"], "text": t}
+        if want is None:
+            if not is_err(d):
+                chk.violation("lang:json:accepts-invalid-string", f"json_deserialize of {t!r} = {d}", replay)
+            elif m != "none":
+                chk.violation("tie:json:unescape", f"model unescapeStr accepts {t!r}: {m}", {"model": "conv unescape", "text": t}, no_input=True)
+        else:
+            if got != want:
+                chk.violation("lang:json:unescape", f"json_deserialize of {t!r} = {d}, expected the string {want!r}", replay)
+            elif m != "ok " + (",".join(str(ord(c)) for c in want) if want else "-"):
+                chk.violation("tie:json:unescape", f"model unescapeStr {t!r} = {m}, implementation {want!r}", {"model": "conv unescape", "text": t}, no_input=True)
+
     return chk.finish(rule="Julian days: blocks of consecutive days through date/julian_day/weekday (quick: ±3 000 000 ends, era/century boundaries, "
                            "40 random blocks, beyond 2^53 and 2^70; thorough: all 6 000 001 days of ±3 000 000); fractions: operand pairs up to 2^70 "
                            "incl. negative/zero/common factors through fraction and every Fraction operation; datetime/unix: dyadic times in ±10^11 s; "
+                           "chr/code_point: all boundary scalars/surrogates + random; to_int in bases 2-36 / format x,b,o; JSON: random documents of depth ≤ 5 "
+                           "(strings over quotes, backslash, all C0 controls, DEL, BMP and non-BMP; numbers across the double range; objects with distinct keys) "
+                           "serialised by the interpreter, parsed by serde_json and compared structurally, and deserialize(serialize(v)) == v; "
                            "non-trivial = distinct fraction cases with an operand ≥ 2^53")
